@@ -69,8 +69,55 @@ Theorem C10_slice_full : forall (A : Type) (l : list A), py_slice l None None No
 Proof. exact @slice_full. Qed.
 Print Assumptions C10_slice_full.
 
+From Coq Require Import String.
+From Verif Require Import Base.PyValue Model.PyMini Gen.SrcCursor Proofs.SrcCursor.
+Open Scope list_scope.
+
+(* ---- Tie by translation (re-checked on every run against the CURRENT source of beanquery/cursor.py).
+   Gen/SrcCursor.v holds the PyMini translation of Cursor.fetchone/fetchmany/fetchall/rowcount/rownumber made by
+   harness/vf/py2mini.py from inspect.getsource of the imported class.  Interpreting the translated method on the
+   attributes of ANY cursor state, with any argument, yields exactly the attributes and the result that Model/Cursor.v
+   (over which every theorem above is stated) computes.  [flds c] is the object's attribute dictionary:
+   _rows (None before execute), _pos, _rowcount, arraysize. *)
+Theorem C10_source_fetchone : forall (call_ref : nat -> list pv -> pv) (c : cur pv),
+  call_method call_ref cursor_fetchone (flds c) [] =
+  Ok (flds (fst (fetchone pv c)), res_pv (snd (fetchone pv c))).
+Proof. exact fetchone_src. Qed.
+Print Assumptions C10_source_fetchone.
+
+Theorem C10_source_fetchmany : forall (call_ref : nat -> list pv -> pv) (c : cur pv) (size : option Z),
+  call_method call_ref cursor_fetchmany (flds c) [match size with None => PNone | Some n => PInt n end] =
+  Ok (flds (fst (fetchmany pv c size)), res_pv (snd (fetchmany pv c size))).
+Proof. exact fetchmany_src. Qed.
+Print Assumptions C10_source_fetchmany.
+
+Theorem C10_source_fetchall : forall (call_ref : nat -> list pv -> pv) (c : cur pv),
+  call_method call_ref cursor_fetchall (flds c) [] =
+  Ok (flds (fst (fetchall pv c)), res_pv (snd (fetchall pv c))).
+Proof. exact fetchall_src. Qed.
+Print Assumptions C10_source_fetchall.
+
+Theorem C10_source_rowcount : forall (call_ref : nat -> list pv -> pv) (c : cur pv),
+  call_method call_ref cursor_rowcount (flds c) [] = Ok (flds c, PInt (count pv c)).
+Proof. exact rowcount_src. Qed.
+Print Assumptions C10_source_rowcount.
+
+Theorem C10_source_rownumber : forall (call_ref : nat -> list pv -> pv) (c : cur pv),
+  call_method call_ref cursor_rownumber (flds c) [] = Ok (flds c, PInt (pos pv c)).
+Proof. exact rownumber_src. Qed.
+Print Assumptions C10_source_rownumber.
+
+(* Non-vacuity of the tie: the translated fetchmany run on a concrete cursor object. *)
+Example C10_source_example :
+  call_method (fun _ _ => PNone) cursor_fetchmany
+    [("_rows", PList [PInt 10; PInt 20; PInt 30]); ("_pos", PInt 1); ("_rowcount", PInt 4); ("arraysize", PInt 1)]%string
+    [PInt 2]
+  = Ok ([("_rows", PList [PInt 30]); ("_pos", PInt 3); ("_rowcount", PInt 4); ("arraysize", PInt 1)]%string,
+        PList [PInt 10; PInt 20]).
+Proof. reflexivity. Qed.
+
 (* Non-vacuity: a concrete history meeting the hypotheses, with its outputs. *)
 Example C10_example :
-  snd (run Z init [Execute [10; 20; 30]; FetchOne; NewIter; Next 0; FetchMany (Some 5); FetchOne; RowNumber; RowCount])
+  snd (run Z init [Execute [10; 20; 30]; FetchOne; NewIter; Cursor.Next 0; FetchMany (Some 5); FetchOne; RowNumber; RowCount])
   = [RNone; RRow 10; RInt 0; RRow 20; RRows [30]; RNone; RInt 3; RInt 3].
 Proof. reflexivity. Qed.
